@@ -829,11 +829,12 @@ class BiproportionalEvaluator:
             )
             for district, n_district_party_seats in party_result.items():
                 if isinstance(district, votelib.evaluate.core.Tie):
-                    # Tie on evaluation start, select an arbitrary district
-                    # of the tied.
-                    sel_district = list(sorted(district))[0]
-                    solution[sel_district].setdefault(party, 0)
-                    solution[sel_district][party] += n_district_party_seats
+                    # Tie on evaluation start, select arbitrary districts
+                    # of the tied, each of which is due one seat at most.
+                    sel_districts = list(sorted(district))
+                    for sel_district in sel_districts[:n_district_party_seats]:
+                        solution[sel_district].setdefault(party, 0)
+                        solution[sel_district][party] += 1
                 else:
                     solution[district][party] = n_district_party_seats
         return solution
